@@ -65,6 +65,7 @@ ALARM_TEXT = {
     1101: "the grace mechanism demoted before the grace period had elapsed since the latest disconnect",
     1102: "still leader after the grace period elapsed with no reconnect",
     1103: "reconnect verification kept/dropped leadership against the fresh read",
+    1107: "a reconnect notification to a leader was not followed by a fresh read of the record",
     1104: "grace demotion without the demotion callback",
     1201: "health demotion at a count other than the configured number of consecutive unhealthy ticks",
     1202: "the configured number of consecutive unhealthy ticks was reached but the leader kept claiming",
@@ -103,7 +104,7 @@ SIM = {
     "C03": _mk(["G2", "G3", "G8", "G9"], range(301, 305)),
     "C04": _mk(["G3", "G9", "G2", "G4"], range(401, 406)),
     "C06": _mk(["G8", "G1"], [601]),
-    "C11": _mk(["G5", "G7"], range(1101, 1107)),
+    "C11": _mk(["G5", "G7"], range(1101, 1108)),
     "C12": _mk(["G6", "G9"], range(1201, 1206)),
     "C05": _mk(["G1", "G2", "G3", "G4", "G6", "G7", "G9"], range(501, 507)),
     "C07": _mk(["G1", "G7"], range(701, 706), NOFAULT | {ENV_TAKEOVER, ENV_CONN, ENV_UNHEALTHY}),
@@ -138,7 +139,7 @@ def parse_ev(line):
     return int(f[0]), f[1], [int(x) for x in f[2:]]
 
 
-OVERDUE = {301, 302, 303, 304, 601, 1002, 1003, 1102, 1103, 1202, 1203, 1205, 1902}
+OVERDUE = {301, 302, 303, 304, 601, 1002, 1003, 1102, 1103, 1107, 1202, 1203, 1205, 1902}
 
 
 def signature(pid, code, idx, trace):
@@ -158,6 +159,25 @@ def signature(pid, code, idx, trace):
                     g = l.split()
                     if g[1] == "issue" and g[3] == op:
                         if g[4] == "4":
+                            # whose record did the Delete remove? (the issuer of the latest successful Create/Update before it)
+                            deleter, owner = g[2], None
+                            for j in range(k - 1, -1, -1):
+                                h = trace[j].split()
+                                if h[1] == "apply" and h[3] == "0":
+                                    for l2 in trace[:j]:
+                                        g2 = l2.split()
+                                        if g2[1] == "issue" and g2[3] == h[2]:
+                                            if g2[4] in ("1", "2"):
+                                                owner = g2[2]
+                                            break
+                                    if owner is not None:
+                                        break
+                                if h[1] in ("extput",):
+                                    owner = "ext"
+                                    break
+                            if owner == deleter:
+                                # the owner released its own record: not the stale-delete situation of D5
+                                return "%s/%d/after-own-delete" % (pid, code)
                             return "%s/%d/after-site%s-kind4" % (pid, code, g[5])
                         if g[4] == "2" and g[5] == "2":
                             return "%s/%d/after-site2-kind2" % (pid, code)
